@@ -1,3 +1,4 @@
+import ast
 from fractions import Fraction
 import os
 """C04 - tilt carried as metadata is optically identical to tilt in the OPD."""
@@ -586,6 +587,12 @@ def run(chk, repo, tier):
     # they stay as they were computed, or a repeated propagation of the same tilted pupil is evaluated about another origin
     _run_nested(_c01, _Remap(chk, {'C01-a': 'C04-e', 'C01-d': 'C04-e', 'C01-j': 'C04-e'}), repo, tier, fname='run_check')
     _insert_rules(chk, repo, 'C04-e')
+    # the FFT propagator has no way to apply tilt: it refuses every wavefront that carries any (angular or dispersive), so
+    # tilt metadata never gets dropped silently
+    from . import c09 as _c09
+    nd4 = list(chk.not_decided)
+    _run_nested(_c09, _Remap(chk, {'C09-a': 'C04-d'}), repo, tier)
+    chk.not_decided[:] = nd4
     # segments displaced by their own tilts meet again in the output: where their windows touch they are one group
     chk.clause('C04-p', 'tilt-displaced segment fields are combined as the groups they form (reduce / group extents); each owns its transform', 3)
     from .c06 import disjoint_rules as _disjoint_rules
@@ -631,6 +638,24 @@ def run(chk, repo, tier):
     fit_tilt_rules(chk, repo, 'C04-j')
     ptt_mask_rule(chk, repo, 'C04-j')
     fit_tilt_rule(chk, repo, 'C04-f')
+    # what a fit records is added to what the plane already carries (an earlier fit, a user's Tilt): nothing recorded before is
+    # overwritten or removed, so OPD plus recorded tilt stays the original surface over any number of fits
+    ff_ = repo.func('plane.Plane.fit_tilt')
+    lost = []
+    for node_ in ast.walk(ff_.node):
+        tg_ = []
+        if isinstance(node_, ast.Assign):
+            tg_ = node_.targets
+        elif isinstance(node_, ast.Delete):
+            tg_ = node_.targets
+        for t_ in tg_:
+            if isinstance(t_, ast.Subscript) and isinstance(t_.value, ast.Attribute) and t_.value.attr == 'tilt':
+                lost.append(f'`{ast.unparse(t_)}` is {"assigned" if isinstance(node_, ast.Assign) else "deleted"} at {ff_.loc(node_)}')
+        if isinstance(node_, ast.Call) and isinstance(node_.func, ast.Attribute) and node_.func.attr in ('clear', 'pop', 'remove') and \
+                isinstance(node_.func.value, ast.Attribute) and node_.func.value.attr == 'tilt':
+            lost.append(f'`{ast.unparse(node_)[:40]}` at {ff_.loc(node_)}')
+    chk.ob('C04-f', 'E-ownership', ff_.key, 'a fit adds to the recorded tilts and never replaces or removes one', not lost,
+           '; '.join(lost[:2]) + (': a second fit overwrites what the first one recorded' if lost else ''), ff_.loc())
     # a tilt element met before the first sampled plane multiplies two one-element fields: they meet where their offsets are
     # equal by value; and a chip that shares a single row or column with the output is still propagated
     from .c06 import scalar_product_rule as _scalar_product_rule
